@@ -26,13 +26,35 @@ StateOf(pre) == [pc |-> pre.pc, gas |-> pre.gas, regs |-> pre.regs, acc |-> AccO
 WHAT == <<254, 255, 255, 255, 255, 255, 255, 255>>
 IsSmallId(arg) == \A i \in 2..8 : arg[i] = 0
 \* run under the driver's host environment
-RECURSIVE RunEnv(_, _)
-RunEnv(p, s) ==
+RECURSIVE RunEnvK(_, _, _)
+\* allUnknown: no host function at all is installed (invocation-level cases)
+RunEnvK(p, s, allUnknown) ==
   LET r == Run(p, s) IN
-  IF r.exit = "host" /\ ~IsSmallId(r.arg)
+  IF r.exit = "host" /\ (allUnknown \/ ~IsSmallId(r.arg))
   THEN IF r.s.gas < 10 THEN [r EXCEPT !.exit = "oog", !.arg = U64Zero, !.s.gas = -1]
-       ELSE RunEnv(p, [r.s EXCEPT !.gas = r.s.gas - 10, !.regs[8] = WHAT])
+       ELSE RunEnvK(p, [r.s EXCEPT !.gas = r.s.gas - 10, !.regs[8] = WHAT], allUnknown)
   ELSE r
+RunEnv(p, s) == RunEnvK(p, s, FALSE)
+
+\* ---- invocation level (Psi_M / R, A.8): a standard program with empty data sections and argument ----
+Ample == 400
+StdRegs == [i \in 1..13 |-> IF i = 1 THEN <<0, 0, 255, 255, 0, 0, 0, 0>>
+                           ELSE IF i = 2 THEN <<0, 0, 254, 254, 0, 0, 0, 0>>
+                           ELSE IF i = 8 THEN <<0, 0, 255, 254, 0, 0, 0, 0>> ELSE U64Zero]
+StdState == [pc |-> 0, gas |-> Ample, regs |-> StdRegs, acc |-> <<>>, data |-> <<>>,
+             hp |-> <<0, 0, 2, 0, 0, 0, 0, 0>>, hl |-> <<0, 0, 254, 254, 0, 0, 0, 0>>]
+\* reasons why an invocation record is wrong: gas used must lie in 0..limit always; when the program
+\* ends within Ample steps its full cost N is known: limit >= N => the same outcome with used = N;
+\* limit < N => out of gas with used = limit
+JudgeInvoke(e) ==
+  IF e.res = "gopanic" THEN {"gopanic"}
+  ELSE LET full == RunEnvK(e.prog, StdState, TRUE)
+           bounded == ~(full.exit = "oog" /\ full.s.gas >= 0 /\ full.s.gas < 1) /\ full.exit # "oog"
+           n == Ample - full.s.gas
+           kind == IF full.exit = "halt" THEN "halt" ELSE "panic"
+       IN (IF ~LeU(e.used, e.limit) THEN {"used>limit"} ELSE {})
+          \cup (IF bounded /\ LeU(U(n), e.limit) /\ (e.res # kind \/ e.used # U(n)) THEN {"enough-gas:" \o e.res} ELSE {})
+          \cup (IF bounded /\ LtU(e.limit, U(n)) /\ (e.res # "oog" \/ e.used # e.limit) THEN {"short-gas:" \o e.res} ELSE {})
 
 \* page-fault address accepted anywhere from the start of the page of the access to its end (P-fault)
 FaultOk(want, got) ==
@@ -76,7 +98,8 @@ Summary(w) == [exit |-> w.exit, arg |-> w.arg, pc |-> w.s.pc, gas |-> w.s.gas, r
                loose |-> SetToSeq(w.loose), data |-> SetToSeq({<<k[1], k[2], w.s.data[k]>> : k \in DOMAIN NormData(w.s.data)})]
 \* set of [why, want] labels; empty = the record conforms
 Judge(e) ==
-  IF e.k = "deblob" THEN {[why |-> "deblob-refused" \o (IF e.gopanic # "" THEN "+gopanic" ELSE ""), want |-> NoWant]}
+  IF e.k = "invoke" THEN {[why |-> y, want |-> NoWant] : y \in JudgeInvoke(e)}
+  ELSE IF e.k = "deblob" THEN {[why |-> "deblob-refused" \o (IF e.gopanic # "" THEN "+gopanic" ELSE ""), want |-> NoWant]}
   ELSE IF Mode = "c01" THEN
     LET w == RunEnv(e.prog, StateOf(e.pre)) IN
     IF e.a.exit = "gopanic" THEN {[why |-> "gopanic", want |-> Summary(w)]}
